@@ -187,7 +187,7 @@ CLAIMED = {
             "exercised on a small budget for totality only and reported separately (not claimed). pydantic/json trusted."),
     "C15": ("DESIGN.md 8/C15",
             "Theorems over R on generated definitions (costing.py translated by ast): capital cost = N(a + b(A/N)^c), annualised cost applies "
-            "the capital-recovery factor whose discounted annuities sum to one (induction, integer life; real-valued life partial), both "
+            "the capital-recovery factor whose discounted annuities sum to one (induction, integer life; for a real-valued life the closed-form annuity factor (1-(1+i)^-n)/i, proved equal to the discounted sum at integer lives), the factor strictly decreases with the service life, both "
             "increase with area. Over Q (closed): the area target is the sum over the code's own enthalpy intervals of duty x weighted "
             "resistances / LMTD, is positive, balanced spans are equal (LMTD abstract with min/mean hypotheses). Equality with the "
             "independent interval sum recomputed in Q from streams and utility duties is evaluated in coqc on every run (stage calls on "
